@@ -10,7 +10,7 @@ from __future__ import annotations
 from typing import Callable, List, Optional, Tuple
 
 from .core import Check, Repo
-from .ir import Event, Term, Walker, contains, facts, has_guard, mk_not, show
+from .ir import Event, Term, Walker, contains, facts, has_guard, mk_not, show, tkey
 from .kinds import Kinds, node_of
 from .schema import (
     Competition,
@@ -105,7 +105,33 @@ def classify_guard(comp: Competition, u: UpdateSite, g: Term, pol: bool, weight:
             return "outer-cost-" + ("strict" if op == "<" else "nonstrict")
         if weight is not None and op in ("<", "<=") and l == weight and r == hq and comp.policy == "min":
             return "weight-prefilter"
+        # `if removed_so_far == n_nodes: break` before the scan: once every node has left the queue all of them are BLACK
+        # and the scan is a no-op.  Exact when the counter starts at 0, is incremented by exactly 1 per removal,
+        # unconditionally, is compared with the number of nodes of the graph, and the scan skips removed nodes anyway.
+        if op in ("!=", "<") and _all_settled(comp, u, l, r, op):
+            return "not-removed(all settled)"
     return ""
+
+
+def _all_settled(comp: Competition, u: UpdateSite, l: Term, r: Term, op: str) -> bool:
+    from .kinds import count_of
+    lp = comp.loop
+    pairs = [(l, r), (r, l)] if op == "!=" else [(r, l)]  # counter + 1 < n  is written  (1 + counter) < n
+    for n_t, cnt in pairs:
+        if count_of(n_t) != comp.graph:
+            continue
+        for name, (init, end) in lp.carried.items():
+            phi = ("phi", lp.lid, name)
+            plus = ("bin", "+", *sorted([("const", 1), phi], key=tkey))
+            if cnt == plus and init == ("const", 0) and end == plus:
+                black = ("cmp", "!=", *sorted([K("BLACK"), ("idx", ("attr", comp.heap, "color"), u.q)], key=repr))
+                # ... or offers only to nodes that cost strictly more than the removed one: the last node removed from a
+                # correct queue (heap premise) costs at least as much as every other
+                hp, hq = comp.hcost(comp.p), comp.hcost(u.q)
+                dearer = ("cmp", "<", hp, hq) if comp.policy == "min" else ("cmp", "<", hq, hp)
+                fs = facts(tuple(u.inner_guards))
+                return black in fs or dearer in fs
+    return False
 
 
 def check_relaxation_guards(rep: Rep, rule: str, comp: Competition, u: UpdateSite, acc_pos: int,
@@ -461,7 +487,9 @@ def check_fmin_clustering(rep: Rep, pre: str, comp: Competition, label_field: st
         uncond = all(gd in comp.loop.guards for gd in ins.guards)
         rep.ev(pre + "CLU-seed-uncond", ins, uncond, "the seeding insert must not be conditional")
         same = [e for e in before if e.kind == "store" and e.loops == ins.loops and e.guards == ins.guards]
-        c0 = [e for e in same if e.target == comp.hcost(i) and e.value == comp.field(i, "cost") and not e.aug]
+        def unfloat(t):  # float(v) is v (same number, exactly)
+            return t[2][0] if t[0] == "call" and t[1] == ("builtin", "float") and len(t[2]) == 1 and not t[3] else t
+        c0 = [e for e in same if e.target == comp.hcost(i) and unfloat(e.value) == comp.field(i, "cost") and not e.aug]
         rep.ev(pre + "CLU-seed-cost", ins, len(c0) == 1, "a node enters with H.cost = its initial cost (density - 1)")
         pn = [e for e in same if e.target == comp.field(i, "pred") and e.value == K("NIL")]
         rep.ev(pre + "CLU-seed-pred", ins, len(pn) == 1, "every node starts without predecessor")
